@@ -267,6 +267,14 @@ func c13Deliver(w *core.WorkerCtx, h *c13Hist, order []int, name string, opts c1
 		if opts.retryBetween && rng.Intn(3) == 0 {
 			world.Retry(t)
 		}
+		if opts.drainEvery > 0 && (step+1)%opts.drainEvery == 0 {
+			// a stage is complete: let the retry path work until the buffer is empty (bounded)
+			for k := 0; k < 30*opts.drainEvery+50; k++ {
+				if ok, _ := world.Retry(t); !ok && t.Book.VerifParkedLen() == 0 {
+					break
+				}
+			}
+		}
 	}
 	// step the retry path until the buffer is empty (bounded)
 	steps := 0
@@ -299,6 +307,46 @@ func c13Deliver(w *core.WorkerCtx, h *c13Hist, order []int, name string, opts c1
 
 type c13Opts struct {
 	companions, duplicates, retryBetween bool
+	drainEvery                           int
+}
+
+// c13LongLived: one node keeps receiving reversed stages of a long valid history; every stage stays within the bounds
+// (at most 20 parked at once, at most 20 retries per vertex) but over its life the node parks and re-parks vertices
+// well over 500 times. Every stage must still be admitted.
+func c13LongLived(w *core.WorkerCtx) {
+	rng := core.Rand(w.Seed, "C13long", w.Batch)
+	size := 84
+	desc := fmt.Sprintf("c13 long-lived node: valid history of %d vertices delivered in reversed stages of 21 seed=%d batch=%d", size, w.Seed, w.Batch)
+	w.Mark("%s", desc)
+	h, err := c13Build(w, rng, size, desc)
+	if err != nil {
+		w.R.Inconc("history build failed: " + err.Error())
+		return
+	}
+	defer h.world.Close()
+	n := len(h.vs)
+	ident := make([]int, n)
+	for i := range ident {
+		ident[i] = i
+	}
+	ref := c13Deliver(w, h, ident, "R", c13Opts{}, nil)
+	if ref == nil || len(ref.verts) != n {
+		h.world.Violate("C13", "parents-first-delivery-incomplete", fmt.Sprintf("parents-first delivery of a valid history of %d vertices was not admitted completely", n))
+		return
+	}
+	const stage = 21
+	var order []int
+	for lo := 0; lo < n; lo += stage {
+		hi := lo + stage
+		if hi > n {
+			hi = n
+		}
+		for j := hi - 1; j >= lo; j-- {
+			order = append(order, j)
+		}
+	}
+	c13Deliver(w, h, order, "LL", c13Opts{drainEvery: stage}, ref)
+	w.R.Count("c13_long_lived_nodes", 1)
 }
 
 func bucketN(n int) int {
@@ -318,6 +366,9 @@ func bucketN(n int) int {
 }
 
 func c13Worker(w *core.WorkerCtx) {
+	if w.Batch == 1 || (w.Thorough() && w.Batch%4 == 1) {
+		c13LongLived(w)
+	}
 	hists := w.Pick(2, 5)
 	for hi := 0; hi < hists; hi++ {
 		rng := core.Rand(w.Seed, "C13", w.Batch, hi)
